@@ -238,10 +238,22 @@ fn gen_case(src: &mut Src, force_h: usize, huge_ok: bool) -> Case {
     contents_decoded.extend(payload(seed32, contents_nr.unwrap_or(0), 0, &mut counter, 20, true));
     contents_decoded.extend_from_slice(b") Tj ET\n");
     // R5/R6 passwords are UTF-8 cut to 127 bytes (7.6.4.3.3): boundary lengths, the part beyond 127 must not matter
-    let long = alt_if(src, r >= 5, 10, &["pw-short", "pw-127-bytes", "pw-128-bytes", "pw-200-bytes"]);
+    let long = alt_if(src, r >= 5, 10, &["pw-short", "pw-127-bytes", "pw-128-bytes", "pw-200-bytes", "pw-2-byte-char-across-byte-127", "pw-3-byte-char-across-byte-127", "pw-4-byte-char-across-byte-127"]);
+    // UTF-8 passwords in which the cut after 127 bytes falls inside a character: the cut is by bytes (7.6.4.3.3 step b)
+    let across = |pw: Vec<u8>, ch: &str, salt: u8| -> Vec<u8> {
+        let mut v: Vec<u8> = pw.into_iter().take(40).collect();
+        let w = ch.len();
+        // the character that contains byte 127 (index 126 is the last byte kept) starts at 127 - j for some 1 <= j < w
+        let j = 1 + (salt as usize) % (w - 1);
+        while (127 - j - v.len()) % w != 0 { v.push(b'a' + salt % 26); }
+        while v.len() < 140 { v.extend_from_slice(ch.as_bytes()); }
+        v
+    };
     let stretch = |pw: Vec<u8>, n: usize, salt: u8| -> Vec<u8> { let mut v = pw; let mut k = 0u8; while v.len() < n { v.push(b'a' + (k.wrapping_mul(7).wrapping_add(salt)) % 26); k = k.wrapping_add(1); } v };
     let same_pw = opw == upw;
-    let (upw, opw) = match long { 1 => (stretch(upw, 127, 1), stretch(opw, 127, 2)), 2 => (stretch(upw, 128, 1), stretch(opw, 128, 2)), 3 => (stretch(upw, 200, 1), stretch(opw, 200, 2)), _ => (upw, opw) };
+    let (upw, opw) = match long { 1 => (stretch(upw, 127, 1), stretch(opw, 127, 2)), 2 => (stretch(upw, 128, 1), stretch(opw, 128, 2)), 3 => (stretch(upw, 200, 1), stretch(opw, 200, 2)),
+        4 => (across(upw, "\u{e9}", 1), across(opw, "\u{fc}", 2)), 5 => (across(upw, "\u{20ac}", 1), across(opw, "\u{6f22}", 2)), 6 => (across(upw, "\u{10400}", 1), across(opw, "\u{20000}", 3)), // assigned in Unicode 3.2, the repertoire of SASLprep (RFC 3454 table A.1)
+        _ => (upw, opw) };
     let opw = if same_pw { upw.clone() } else { opw };
     Case {
         h, key_bytes, v, upw, opw, p, id0, id1, encrypt_direct, encmeta: em != 2, encmeta_explicit: em != 0,
